@@ -92,7 +92,7 @@ def slice_views(ck):
 
 
 def run(ck):
-    verdicts.check(ck, "C05", ["AsModel.Theorems.C05"])
+    verdicts.check(ck, "C05", ["AsModel.Theorems.C05", "AsModel.Theorems.C05Report"])
     slice_views(ck)
     set_summaries(ck)
     rendered.run(ck, "C05")
